@@ -30,8 +30,6 @@ from __future__ import annotations
 import copy
 import traceback
 
-import numpy as np
-
 import porepy as pp
 
 from pvm.gen import mdg as gm
